@@ -757,6 +757,16 @@ def case_stloop(acc, st, case, rng):
     n = len(fr)
     big = bool(case.get("big"))
     acc.stats["stloop_frames"] += 1
+    if n <= 160:
+        # bounded search on the decoder model: no hint may exceed what is left of a valid frame, whatever two cuts and capacity
+        # (this is what F21 violated; the unproved premise of "the ST loop reads exactly the frame")
+        hs = st["iolz4f"].ask("hintscan", hx(fr))
+        acc.evals += 1
+        acc.stats["hintscan_frames"] += 1
+        if hs.startswith("ok"):
+            acc.stats["hintscan_calls"] += int(hs.split("=")[1])
+        else:
+            acc.fail("prop_fail", "LZ4F_decompress (model) asks for more than is left of a valid frame: %s (%s)" % (hs, d), frame=fr.hex())
     test = rng.random() < 0.3
     stloop_one(acc, st, fr, "whole frame " + d, frame_len=n, content=content, test=test)
     # something follows the frame: another frame, garbage, a skippable frame, a lone magic number
